@@ -219,7 +219,8 @@ def depsLoop (g : G) : Nat → List Nat → List Nat → List Nat → Except Err
       let seen := sadd seen nxt
       let res ← g.edgesAt nxt
       let deps := sunion deps res
-      depsLoop g fuel (queue ++ res.filter (· ∉ seen)) seen deps
+      -- `result` is a Python set: the generator yields each of its elements once
+      depsLoop g fuel (queue ++ res.eraseDups.filter (· ∉ seen)) seen deps
 
 def G.dependenciesRec (g : G) (x : Nat) : Except Err (List Nat) := do
   let i ← g.nodes.indexOf x
